@@ -197,7 +197,7 @@ def _shard(args):
                 stats["excluded"][out.excluded] += 1
             if out.nontrivial and not out.excluded:
                 stats["keys"].add(short_hash(out.key or jdump(case)))
-                if len(stats["samples"]) < 3 and out.sample is not None:
+                if len(stats["samples"]) < 3 and out.sample is not None and (stats["evaluations"] > 25 or mode == "exhaustive"):
                     stats["samples"].append(out.sample)
 
         if mode == "exhaustive":
@@ -295,6 +295,14 @@ def write_replay(prop_id: str, case: Any, detail: Any, directory: Path = FRESH_R
 def run_replay(prop_id: str, path: str) -> int:
     mod = _import_prop(prop_id)
     body = json.loads(Path(path).read_text())
+    if isinstance(body.get("case"), dict) and body["case"].get("post_run"):
+        pdetail, _ = mod.post_run(body["case"]["tier"], body["case"]["seed"])
+        if pdetail is None:
+            print(f"replay {path}: property holds on this case")
+            return 0
+        print(f"replay {path}: FAILS: {jdump(pdetail)[:1500]}")
+        print(f"VIOLATION property={prop_id} replay={path}")
+        return 1
     out = mod.check(body["case"])
     if out.excluded:
         print(f"replay {path}: case lies in open known-finding region {out.excluded}; detail={jdump(out.detail)[:400]}")
@@ -395,6 +403,14 @@ def run_property(prop_id: str, tier: str, seed: int) -> int:
                     print(f"failure ({job[6]} shard {job[3]}): {jdump(detail)[:1500]}")
                     print(f"VIOLATION property={prop_id} replay={path}")
 
+    extra_cov = {}
+    if hasattr(mod, "post_run"):
+        pdetail, extra_cov = mod.post_run(tier, seed)
+        if pdetail is not None:
+            path = write_replay(prop_id, {"post_run": True, "tier": tier, "seed": seed}, pdetail)
+            violations.append(str(path))
+            print(f"failure (post-run check): {jdump(pdetail)[:1500]}")
+            print(f"VIOLATION property={prop_id} replay={path}")
     if len(violations) > 4:
         print(f"... {len(violations) - 4} further failing shards not printed (replays under {FRESH_REPLAY_DIR})")
     for line in known_lines:
@@ -420,6 +436,7 @@ def run_property(prop_id: str, tier: str, seed: int) -> int:
         "budget_exhausted": budget_exhausted,
         "exhaustive": False,
         "missing_essential_labels": missing,
+        **extra_cov,
     }
     if n_ex_shards:
         coverage["exhaustive_slice"] = {
